@@ -113,6 +113,9 @@ type c13M struct {
 	// the opaque object of type unkOf that were READ while unknown are recorded in it
 	unkRead map[string]bool
 	unkOf   types.Type
+	// allMatter (c13k.go): interpret every statement-level method call of a followed package instead of
+	// skipping those that touch no tracked field — for evaluations that carry the whole Model concretely
+	allMatter bool
 }
 
 func (m *c13M) noteUnknownRead(o *c13Obj, name string) {
@@ -1493,6 +1496,19 @@ func (m *c13M) assign(fr *c13Frame, s *ast.AssignStmt) {
 					fr.env[o] = &v
 					continue
 				}
+			}
+		}
+		if se, ok := unparen(l).(*ast.StarExpr); ok {
+			// *p = v where p points to a struct object: the object is overwritten in place (every
+			// alias of it, the field it lives in included, sees the new value)
+			if p := m.eval(fr, se.X); p.k == c13Ptr && p.loc == nil && p.st != nil {
+				v := vals[i]
+				if v.k != c13Struct || v.st == nil {
+					m.abort("store of a value the evaluator does not hold through %s at %s", types.ExprString(l), m.c.P.Pos(l.Pos()))
+				}
+				nv := m.copyV(v)
+				p.st.f, p.st.opaque = nv.st.f, nv.st.opaque
+				continue
 			}
 		}
 		*m.lval(fr, l) = vals[i]
